@@ -258,6 +258,9 @@ def c13():
     run_conc_mc(chk, "MCConcurrent_read_pinned.cfg", expect_violation=True)
     run_conc_mc(chk, "MCConcurrent_readlocal.cfg")
     run_conc_mc(chk, "MCConcurrent_read_pending.cfg", expect_violation=True)
+    # a remote reader that does not take the instance's cache lock (get_epoch_hash): the poller's flush may fall between its reads
+    run_conc_mc(chk, "MCConcurrent_readlockfree.cfg")
+    run_conc_mc(chk, "MCConcurrent_readlockfree_pinned.cfg", expect_violation=True)
     scheds = export_schedules(chk, "MCConcurrent_readx.cfg")
     rnd = random.Random(chk.seed)
     # (a) lagging remote instance: warmed at epoch t, storage moves on by 1..4 epochs; with and without poller
